@@ -218,8 +218,10 @@ def run_property(pid, tier, seed, update_lock=False, only=None, verbose=False):
     obl = {}
     for r in reports:
         for o in r["instances"]:
-            e = obl.setdefault(o["name"], dict(name=o["name"], target=r["target"], instances=[], kind=o["kind"]))
+            e = obl.setdefault(o["name"], dict(name=o["name"], target=r["target"], instances=[], kind=o["kind"], bounded=False))
             e["instances"].append(o)
+            # a bounded contract (stated input bound) or a run-time stand-in is never counted as proved
+            e["bounded"] = e["bounded"] or bool(r.get("bounded")) or o["kind"] == "bounded"
     for e in obl.values():
         vs = [o["verdict"] for o in e["instances"]]
         if all(v == "proved" for v in vs):
@@ -354,8 +356,16 @@ def run_property(pid, tier, seed, update_lock=False, only=None, verbose=False):
     n_known = sum(1 for e in obl.values() if e["verdict"] == "known-finding")
     # obligations refuted by a listed known finding are reported separately (coverage.known_finding_obligations)
     # and are not part of the proof claim
-    n_obl = len(obl) - n_known
-    n_proved = sum(1 for e in obl.values() if e["verdict"] == "proved")
+    n_obl = sum(1 for e in obl.values() if e["verdict"] != "known-finding" and not e["bounded"])
+    n_proved = sum(1 for e in obl.values() if e["verdict"] == "proved" and not e["bounded"])
+    nb_obl = sum(1 for e in obl.values() if e["verdict"] != "known-finding" and e["bounded"])
+    nb_held = sum(1 for e in obl.values() if e["verdict"] == "proved" and e["bounded"])
+
+    def _verdict(e):
+        return "held-bounded" if e["bounded"] and e["verdict"] == "proved" else e["verdict"]
+
+    def _backend(e):
+        return "run-time contract on the real code (bounded stand-in)" if e["kind"] == "bounded" else e["backend"]
     wall = time.time() - t_start
 
     # ---- evidence
@@ -369,7 +379,7 @@ def run_property(pid, tier, seed, update_lock=False, only=None, verbose=False):
     trusted += [f"{k}: {LIBRARY_CONTRACTS[k]}" for k in used_lib if k in LIBRARY_CONTRACTS]
     samples = []
     for e in list(obl.values())[:4]:
-        samples.append(dict(obligation=e["name"], verdict=e["verdict"], instances=len(e["instances"]), backend=e["backend"]))
+        samples.append(dict(obligation=e["name"], verdict=e["verdict"] if not e.get("bounded") else "held-bounded" if e["verdict"] == "proved" else e["verdict"], instances=len(e["instances"]), backend=e["backend"]))
     ev = dict(
         property_id=pid,
         tier=tier,
@@ -384,7 +394,8 @@ def run_property(pid, tier, seed, update_lock=False, only=None, verbose=False):
             checker_cmd=f"./check {pid} --tier {tier}",
             trusted_base=trusted,
             functions=[dict(r["extracted"] or {"qualname": r["target"]}, contract=r["target"], wall_s=round(r["wall"], 2), paths=r["paths"], obligations=len({o["name"] for o in r["instances"]}), bounded=r["bounded"], error=r["error"]) for r in reports],
-            obligation_log=[dict(name=e["name"], verdict=e["verdict"], backend=e["backend"], seconds=e["seconds"], instances=len(e["instances"])) for e in obl.values()],
+            bounded_checks=dict(total=nb_obl, held=nb_held, note="obligations of contracts with a stated input bound and of run-time stand-ins: reported here, never counted under obligations/discharged"),
+            obligation_log=[dict(name=e["name"], verdict=_verdict(e), kind="bounded" if e["bounded"] else "deductive", backend=_backend(e), seconds=e["seconds"], instances=len(e["instances"])) for e in obl.values()],
             solver_seconds=round(sum(r["solver_seconds"] for r in reports), 2),
             axioms=axioms,
             extraction_drops=extract.EXTRACTION_DROPS,
@@ -407,10 +418,10 @@ def run_property(pid, tier, seed, update_lock=False, only=None, verbose=False):
     json.dump(ev, open(os.path.join(evdir, f"{pid}.json"), "w"), indent=1)
 
     # ---- report
-    print(f"[{pid}] {len(targets)} functions under contract, {n_obl} obligations ({total_instances} instances), {n_proved} proved, wall {wall:.1f}s")
+    print(f"[{pid}] {len(targets)} functions under contract, {n_obl} obligations ({total_instances} instances), {n_proved} proved" + (f"; {nb_obl} bounded checks, {nb_held} held" if nb_obl else "") + f", wall {wall:.1f}s")
     if verbose:
         for e in obl.values():
-            print(f"   {e['verdict']:10s} {e['name']}  [{e['backend']}, {e['seconds']}s, {len(e['instances'])} inst]")
+            print(f"   {_verdict(e):10s} {e['name']}  [{_backend(e)}, {e['seconds']}s, {len(e['instances'])} inst]")
     for k, conf in known_hits:
         print(f"KNOWN-FINDING: property={pid} {k['what']}")
     for name, path, text, noinput in violations:
